@@ -719,6 +719,13 @@ def ev(ctx, node, env):
             if sv is not None and sv[0] == "angle" and node.attr == "_deg":
                 return T.call("red", sv[1])
             return ("attr", T.sym("self"), node.attr)
+        if isinstance(node.value, ast.Name) and node.value.id not in env:
+            # Class.method / module.function used as a value (handed to a helper as a callable)
+            tgt_ = resolve_name(ctx, node.value.id)
+            mod_, _, cls_ = tgt_.partition(".")
+            m_ = ctx.repo.modules.get(mod_)
+            if m_ is not None and cls_ and ("%s.%s" % (cls_, node.attr)) in m_.functions:
+                return ("funcref", "%s.%s.%s" % (mod_, cls_, node.attr))
         base = ev(ctx, node.value, env)
         if base[0] == "angle" and node.attr == "_deg":
             return T.call("red", base[1])
@@ -943,6 +950,10 @@ def ev_call(ctx, node, env):
         name = f.id
         if name in env and env[name][0] == "closure":
             return inline_closure(ctx, ctx.closures[env[name][1]], args, kws, env)
+        if name in env and env[name][0] == "funcref":
+            return repo_call(ctx, env[name][1], args, kws, star_kw, env)       # a callable parameter bound to a repository function
+        if name in env and env[name][0] == "sym" and env[name][1] in ("sin", "cos", "tan", "asin", "acos", "atan", "sqrt") and len(args) == 1:
+            return math_call(env[name][1], args)                               # a callable parameter bound to a math function
         if name in env and env[name][0] in ("angle", "epoch", "zerofn"):
             return call_value(env[name], args)
         if name in env and env[name][0] == "sym":
@@ -975,6 +986,8 @@ def ev_call(ctx, node, env):
             return T.call("int", numval(args[0]))
         if name == "round":
             return T.call("round", *[numval(a) for a in args])
+        if name == "bool" and len(args) == 1 and args[0][0] in ("bool", "num"):
+            return ("bool", bool(args[0][1]))
         if name in ("max", "min") and args and not kws:
             seq = list(args[0][1:]) if len(args) == 1 and args[0][0] in ("tuple", "list") else list(args) if len(args) > 1 else None
             if seq and all(x[0] == "num" for x in seq):
